@@ -234,3 +234,10 @@ func (e *Env) Blocks() int {
 	defer e.s.mu.Unlock()
 	return w.blocks
 }
+
+// SetData hands a value to the code that runs after the simulated run (outside the bubble).
+func (e *Env) SetData(v interface{}) {
+	e.s.mu.Lock()
+	e.s.data = v
+	e.s.mu.Unlock()
+}
